@@ -6,21 +6,27 @@
     Abstractions (stated, not hidden):
     - RIPEMD-160 is abstract: the op carries [h20] = ripemd160(pub) computed by
       the harness;
-    - "container exists" ([getOwnerByID(cid) != nil]), the witness of [pub] and
-      membership of [pub] in the Netmap snapshot of the previous epoch
-      ([isStorageNode] via netmap.snapshot(1)) are inputs of the op, observed
-      by the harness on the real chain before the call;
+    - the environment of a call is part of the op, read by the harness on the
+      real chain just before the call: [live] = the ids of the containers that
+      exist ([getOwnerByID(cid) != nil]; ids are SHA-256 digests computed by
+      the contract's own Put, 32 bytes), [wit] = the public keys witnessing
+      the transaction, [prev] = the node keys of the Netmap snapshot of the
+      previous epoch ([isStorageNode] via netmap.snapshot(1), info[2:35]);
     - std.Serialize(Estimation{From,Size}) is modelled by a length-prefixed
-      encoding; the per-node epoch lists "est"++cid++h20 |-> Serialize([]int)
-      are kept as a typed map (their key cannot collide with "cnr…").
+      encoding (observed only through DeserializeValues); the per-node epoch
+      lists "est"++cid++h20 |-> Serialize([]int) are kept as a typed map
+      keyed by cid++h20 (a key starting with "est" cannot collide with
+      "cnr…"), with the limits of std.Serialize (2048 items) and of
+      storage.Put (65535 value bytes) made explicit.
     The two cleanup deltas are parameters ([containerconst.CleanupDelta] = 3,
-    [TotalCleanupDelta] = 4).  No proofs here. *)
+    [TotalCleanupDelta] = CleanupDelta + 1 = 4), read by the harness from the
+    Go package.  No proofs here. *)
 From Verif Require Import Base.Prelude Base.IntCodec Model.StoreLib.
 Local Open Scope Z_scope.
 
 Definition cnr_pfx : bytes := [99; 110; 114]%N.   (* "cnr" *)
-Definition cid_size : nat := 32.
-Definition postfix_size : nat := 10.
+Definition cid_size : nat := 32.                  (* containerIDSize *)
+Definition postfix_size : nat := 10.              (* estimatePostfixSize *)
 
 Record estate := mkE { ests : store; elists : gmap bytes (list Z) }.
 Definition einit : estate := mkE ∅ ∅.
@@ -33,39 +39,61 @@ Definition dec_est (v : bytes) : val :=
   | n :: r => VList [VBytes (take (N.to_nat n) r); VInt (bytes_to_int (drop (N.to_nat n) r))]
   end.
 
+(** Size of std.Serialize([]int): Array tag, var-uint count, then per item an
+    Integer tag, one length byte and the minimal little-endian bytes. *)
+Definition varuint_len (n : nat) : Z :=
+  if Z.of_nat n <? 253 then 1 else if Z.of_nat n <? 65536 then 3 else 5.
+Definition ser_ints_len (l : list Z) : Z :=
+  1 + varuint_len (length l)
+  + fold_right (fun e acc => 2 + Z.of_nat (length (int_to_bytes e)) + acc) 0 l.
+(** stackitem.MaxSerialized = 2048 items, the array itself included;
+    limits.MaxStorageValueLen = 65535. *)
+Definition ser_ints_ok (l : list Z) : bool :=
+  (Z.of_nat (length l) + 1 <=? 2048) && (ser_ints_len l <=? 65535).
+
 (** [estimationKey] *)
 Definition ekey (e : Z) (cid h20 : bytes) : bytes :=
   cnr_pfx ++ int_to_bytes e ++ cid ++ take postfix_size h20.
 
 Inductive eop :=
-| EPut (exists_ wit innet : bool) (e : Z) (cid : bytes) (size : Z) (pub h20 : bytes)
+| EPut (live wit prev : list bytes) (e : Z) (cid : bytes) (size : Z) (pub h20 : bytes)
 | ETick (alpha : bool) (n : Z).
 
 Section Deltas.
   Variables (d1 d2 : Z).  (* CleanupDelta, TotalCleanupDelta *)
 
-  (** [updateEstimations] with isUpdate = false *)
+  (** The loop of [updateEstimations] (isUpdate = false) over the node's old
+      epoch list: [epoch-oldEpoch > CleanupDelta] deletes the old key. *)
+  Definition upd_loop (e : Z) (cid h20 : bytes) (old : list Z) (st : store)
+      : outcome (store * list Z) :=
+    fold_left (fun acc oe =>
+                 '(st', keep) <-! acc;
+                 d <-! vm_sub e oe;
+                 if d >? d1 then Halt (delete (ekey oe cid h20) st', keep)
+                 else Halt (st', keep ++ [oe]))
+              old (Halt (st, [])).
+
+  (** [updateEstimations] *)
   Definition update_estimations (s : estate) (e : Z) (cid h20 : bytes) : outcome estate :=
     let est_key := cid ++ h20 in
-    _ <-! oassert (3 + length est_key <=? 64)%nat;
     let old := default [] (elists s !! est_key) in
-    let '(st, keep) :=
-      fold_left (fun (acc : store * list Z) (oe : Z) =>
-                   if e - oe >? d1 then (delete (ekey oe cid h20) (fst acc), snd acc)
-                   else (fst acc, snd acc ++ [oe]))
-                old (ests s, []) in
-    Halt (mkE st (<[est_key := keep ++ [e]]> (elists s))).
+    '(st, keep) <-! upd_loop e cid h20 old (ests s);
+    let new := keep ++ [e] in
+    (* common.SetSerialized: std.Serialize, then storage.Put("est"++cid++h, …) *)
+    _ <-! oassert ((3 + length est_key <=? 64)%nat && ser_ints_ok new);
+    Halt (mkE st (<[est_key := new]> (elists s))).
 
   (** [PutContainerSize] *)
-  Definition eput (s : estate) (exists_ wit innet : bool) (e : Z) (cid : bytes) (size : Z)
+  Definition eput (s : estate) (live wit prev : list bytes) (e : Z) (cid : bytes) (size : Z)
       (pub h20 : bytes) : outcome estate :=
-    _ <-! oassert exists_;
-    _ <-! oassert wit;
-    _ <-! oassert innet;
+    _ <-! oassert (existsb (bytes_eqb cid) live);   (* getOwnerByID(ctx, cid) != nil *)
+    _ <-! oassert (existsb (bytes_eqb pub) wit);    (* common.CheckWitness(pubKey) *)
+    _ <-! oassert (existsb (bytes_eqb pub) prev);   (* isStorageNode: netmap.snapshot(1) *)
     st <-! sput (ekey e cid h20) (enc_est pub size) (ests s);
     update_estimations (mkE st (elists s)) e cid h20.
 
-  (** [cleanupContainers]: the epoch is parsed from the middle of the key. *)
+  (** [cleanupContainers]: the epoch is parsed from the middle of the key,
+      [k[3 : len(k)-32-10]], and converted to an integer (at most 32 bytes). *)
   Definition key_epoch (k : bytes) : outcome Z :=
     _ <-! oassert (3 + cid_size + postfix_size <=? length k)%nat;
     nb <-! bslice 3 (length k - cid_size - postfix_size - 3) k;
@@ -76,7 +104,8 @@ Section Deltas.
     fold_left (fun acc kv =>
                  st' <-! acc;
                  ke <-! key_epoch (fst kv);
-                 if n - ke >? d2 then Halt (delete (fst kv) st') else Halt st')
+                 d <-! vm_sub n ke;
+                 if d >? d2 then Halt (delete (fst kv) st') else Halt st')
               (sfind cnr_pfx st) (Halt st).
 
   (** [NewEpoch] *)
@@ -87,7 +116,7 @@ Section Deltas.
 
   Definition eexec (s : estate) (o : eop) : outcome estate :=
     match o with
-    | EPut x w i e cid size pub h20 => eput s x w i e cid size pub h20
+    | EPut live wit prev e cid size pub h20 => eput s live wit prev e cid size pub h20
     | ETick a n => etick s a n
     end.
 
@@ -97,10 +126,20 @@ Section Deltas.
   Definition erun (ops : list eop) : estate := fold_left (fun s o => fst (estep s o)) ops einit.
 End Deltas.
 
-(** [ListContainerSizes]: storage keys without the 10-byte postfix, unique. *)
-Definition elist (st : store) (e : Z) : list bytes :=
-  dedup_first [] (map (fun kv => take (length (fst kv) - postfix_size) (fst kv))
-                      (sfind (cnr_pfx ++ int_to_bytes e) st)).
+(** [ListContainerSizes]: storage keys without the 10-byte postfix
+    ([storageKey[:ln-10]] faults on a shorter key), unique, in insertion
+    order of the NeoVM map. *)
+Definition cut_postfix (k : bytes) : outcome bytes :=
+  _ <-! oassert (postfix_size <=? length k)%nat;
+  Halt (take (length k - postfix_size) k).
+Fixpoint omapM {A B} (f : A -> outcome B) (l : list A) : outcome (list B) :=
+  match l with
+  | [] => Halt []
+  | x :: l' => y <-! f x; r <-! omapM f l'; Halt (y :: r)
+  end.
+Definition elist (st : store) (e : Z) : outcome (list bytes) :=
+  l <-! omapM (fun kv => cut_postfix (fst kv)) (sfind (cnr_pfx ++ int_to_bytes e) st);
+  Halt (dedup_first [] l).
 
 (** [GetContainerSize] -> (cid, values) *)
 Definition eget (st : store) (id : bytes) : outcome (bytes * list bytes) :=
@@ -117,19 +156,27 @@ Definition eiter_all (st : store) (e : Z) : list (bytes * bytes) :=
   map (fun kv => (drop (3 + length (int_to_bytes e)) (fst kv), snd kv))
       (sfind (cnr_pfx ++ int_to_bytes e) st).
 
+(** Observables after every op, for the history's pools of epochs and
+    container ids: the four listings, and GetContainerSize on every id that
+    ListContainerSizes(0) returns (epoch 0 encodes to the empty string, so this
+    is every id). *)
 Definition eobserve (q : list Z * list bytes) (s : estate) (r : val) : val :=
   let '(es, cs) := q in
   let st := ests s in
   VList [ r;
-          VList (map (fun e => VBytesList (elist st e)) es);
+          VList (map (fun e => match elist st e with Halt l => VBytesList l | Fault => VFault end) es);
           VList (map (fun e => VList (map (fun c =>
                    match eiter st e c with
                    | Halt l => VList (map dec_est l) | Fault => VFault end) cs)) es);
           VList (map (fun e => VList (map (fun kv => VList [VBytes (fst kv); dec_est (snd kv)])
                                           (eiter_all st e))) es);
-          VList (map (fun id => match eget st id with
-                                | Halt (c, l) => VList [VBytes c; VList (map dec_est l)]
-                                | Fault => VFault end) (elist st 0)) ].
+          match elist st 0 with
+          | Halt ids =>
+              VList (map (fun id => match eget st id with
+                                    | Halt (c, l) => VList [VBytes c; VList (map dec_est l)]
+                                    | Fault => VFault end) ids)
+          | Fault => VFault
+          end ].
 
 Definition estep_obs (d : Z * Z) (q : list Z * list bytes) (s : estate) (o : eop) : estate * val :=
   let '(s', r) := estep (fst d) (snd d) s o in (s', eobserve q s' r).
